@@ -511,20 +511,25 @@ def count_nontrivial(pid, stream, ops, workdir):
     """distinct op lines whose implementation observation is non-trivial"""
     impl_path = os.path.join(workdir, f"{stream}.impl")
     seen = set()
-    try:
-        impl = open(impl_path).read().splitlines()
-    except FileNotFoundError:
-        impl = [""] * len(ops)
     pat = PROPS.get(pid, {}).get("nontrivial_op")
     proj = projection(pid, stream, "debug")
-    for o, i in zip(ops, impl):
-        if i in ("bad-op", "", "dead"):
-            continue
-        if pat and pat not in o:
-            continue
-        if proj(o, i) is None:
-            continue
-        seen.add(o)
+    try:
+        f = open(impl_path)
+    except FileNotFoundError:
+        return 0
+    with f:
+        for o in ops:
+            i = f.readline()
+            if not i:
+                break
+            i = i.rstrip("\n")
+            if i in ("bad-op", "", "dead"):
+                continue
+            if pat and pat not in o:
+                continue
+            if proj(o, i) is None:
+                continue
+            seen.add(hash(o))
     return len(seen)
 
 
